@@ -56,10 +56,11 @@ def replay_behaviour(beh, want=('C01', 'C02', 'C03'), canon=False):
         nsteps += 1
         pre = {s: npc.fingerprint_array(a) for s, a in pool.items()} if 'C03' in want else {}
         pre_ids = {s: id(a) for s, a in pool.items()}
+        flags = context_flags(pool, l)
         try:
             kind, val = npc.apply_step(pool, l, chinfo)
         except Exception as e:  # the spec enables the step, so an exception is a divergence
-            findings.append(dict(prop='C01', clause='raised-' + type(e).__name__, step=n, op=op, detail=str(e)[:300]))
+            findings.append(dict(prop='C01', clause='raised-' + type(e).__name__, step=n, op=op, detail=str(e)[:300], flags=flags))
             records.append(dict(step=n, error=type(e).__name__))
             break
         out = l['out']
@@ -129,7 +130,23 @@ def behaviours_to_json(behs, path):
 
 def sig_of(finding):
     """Normalised signature of a finding (what known-findings match on)."""
-    return dict(kind='replay', spec='NpcProgram', op=finding['op'], clause=finding['clause'])
+    return dict(kind='replay', spec='NpcProgram', op=finding['op'], clause=finding['clause'], flags=finding.get('flags', []))
+
+
+def context_flags(pool, l):
+    """Structural facts about the operands of a step that distinguish classes of failures."""
+    flags = []
+    a = pool.get(l.get('a'))
+    if a is not None:
+        if any(leg.ind_len == 0 for leg in a.legs):
+            flags.append('zero-length-leg')
+        if l['op'] in ('getitem', 'setitem_scaled'):
+            for ax, sp in enumerate(l['spec']):
+                if sp['k'] == 'sel' and list(sp['sel']) != sorted(sp['sel']):
+                    flags.append('unsorted-selection')
+                    if not a.legs[ax].is_bunched():
+                        flags.append('on-unbunched-leg')
+    return flags
 
 
 # ---- subprocess mode (C04): replay a file of behaviours under the current interpreter configuration ----
